@@ -102,6 +102,12 @@ class Toolkit:
                     t2 = self.R.typeof(a, fa)
                     if t2 and t2[0] == "inst":
                         keep.append(a)
+            handed_back = [a for a in cand if a.k in ("sub", "elem", "item") and a.a and isinstance(a.a[0], T) and a.a[0].k == "param"
+                           and not (a.k == "sub" and a.a[1].k in ("slice", "tuple"))]
+            if handed_back and not keep:
+                ctx.violated(rule, f, what, "`%s`: an element of the operand `%s` is returned as the result (the caller's own object, not a new one)" % (
+                    norm(n.ast), handed_back[0].a[0].a[0]), node=n.ast, key="alias-via:operand-element", engine=engine)
+                continue
             if not keep:
                 continue
             if any(_empty_fact(fa, n)):
